@@ -275,7 +275,10 @@ class GaussianBackend(BaseGaussian):
         if modes is None:
             modes = list(range(len(self.get_modes())))
 
-        listmodes = list(concatenate((2 * array(modes), 2 * array(modes) + 1)))
+        # ``modes`` are positions among the active modes (as in the Fock backend); the circuit
+        # stores every mode ever created under its own index, so map positions to indices
+        active = array(self.get_modes(), dtype=int)[modes]
+        listmodes = list(concatenate((2 * active, 2 * active + 1)))
         covmat = empty((2 * len(modes), 2 * len(modes)))
         means = r[listmodes]
 
@@ -286,7 +289,7 @@ class GaussianBackend(BaseGaussian):
         means *= sqrt(2 * self.circuit.hbar) / 2
         covmat *= self.circuit.hbar / 2
 
-        mode_names = ["q[{}]".format(i) for i in array(self.get_modes())[modes]]
+        mode_names = ["q[{}]".format(i) for i in active]
         return BaseGaussianState((means, covmat), len(modes), mode_names=mode_names)
 
     def mzgate(self, phi_in, phi_ex, mode1, mode2):
